@@ -34,23 +34,31 @@ def lead(txt):
     return float(m.group(1)) if m else None
 
 
+iunc, wunc = {}, {}
+
+
 def third_reader():
     """(mass of (z,a)), weights of z, composition blocks — read with nothing but split/regex."""
     imass, weight, blocks = {}, {}, []
+    iunc.clear(); wunc.clear()
     for line in mass.isotope_mass.split("\n"):
         f = line.split(",")
         z, _, a = f[0].split("-")
         imass[(int(z), int(a))] = lead(f[1])
+        iunc[(int(z), int(a))] = lead_unc(f[1])
         if int(z) not in weight:
             weight[int(z)] = lead(f[3]) if f[3] else None
+            wunc[int(z)] = lead_unc(f[3]) if f[3] else None
     for line in mass.element_mass.split("\n"):
         t = line.split()
         if t[3] != "-":
             if t[3].startswith("["):
                 lo, hi = t[3][1:-1].split(",") if "," in t[3] else (t[3][1:-1], t[3][1:-1])
                 weight[int(t[0])] = (float(lo) + float(hi)) / 2
+                wunc[int(t[0])] = (float(hi) - float(lo)) / math.sqrt(12)
             else:
                 weight[int(t[0])] = lead(t[3])
+                wunc[int(t[0])] = lead_unc(t[3])
     for line in mass.isotope_abundance.split("\n"):
         t = line.split()
         if line[:1] not in (" ", "\t"):
@@ -64,6 +72,23 @@ def third_reader():
                 p = lead(v.strip("[]"))
             blocks[-1][1].append((int(t[0]), p))
     return imass, weight, blocks
+
+
+UNC = re.compile(r"\s*([0-9]*\.?[0-9]*)\(([0-9.]+)\)")
+
+
+def lead_unc(txt):
+    """uncertainty of 'value(unc)' read digit by digit (third reader): the digits of unc are aligned
+    with the last digits of value unless unc carries its own decimal point; None when not of that form"""
+    m = UNC.match(txt)
+    if not m:
+        return None
+    value, unc = m.group(1), m.group(2)
+    if "." in unc or "." not in value:
+        return float(unc)
+    decimals = len(value.split(".")[1])
+    from fractions import Fraction
+    return float(Fraction(int(unc), 10 ** decimals))
 
 
 def rel(a, b, tol=1e-12):
@@ -88,12 +113,22 @@ def direct(tname, table):
             if not (isinstance(el.mass, float) and rel(el.mass, weight[z])):
                 fail("C06:weight:Z=%d" % z, "atomic weight of %s is %r, the table says %r" % (el.symbol, el.mass, weight[z]),
                      atom=el.symbol, observed=el.mass, expected=weight[z])
+        if z != 0 and wunc.get(z) is not None:
+            u = attempt(getattr, el, "_mass_unc")
+            if not (isinstance(u, (int, float)) and rel(float(u), wunc[z], 1e-12)):
+                fail("C06:weight-unc:Z=%d" % z, "uncertainty of the atomic weight of %s is %r, the table says %r" % (el.symbol, u, wunc[z]),
+                     atom=el.symbol, observed=repr(u), expected=wunc[z])
         absum = 0.0
         for iso in el:
             a = iso.isotope
             if (z, a) in imass and not (isinstance(iso.mass, float) and rel(iso.mass, imass[(z, a)])):
                 fail("C06:mass:%d-%d" % (z, a), "mass of %r is %r, the table says %r" % (iso, iso.mass, imass[(z, a)]),
                      atom=repr(iso), observed=iso.mass, expected=imass[(z, a)])
+            if iunc.get((z, a)) is not None:
+                u = attempt(getattr, iso, "_mass_unc")
+                if not (isinstance(u, (int, float)) and rel(float(u), iunc[(z, a)], 1e-12)):
+                    fail("C06:mass-unc:%d-%d" % (z, a), "mass uncertainty of %r is %r, the table says %r" % (iso, u, iunc[(z, a)]),
+                         atom=repr(iso), observed=repr(u), expected=iunc[(z, a)])
             ab = attempt(getattr, iso, "abundance")
             exp_ab = listed.get((z, a), 100.0 if z == 0 else 0.0)
             if isinstance(ab, Exception) or not rel(float(ab), exp_ab, 1e-11):
